@@ -393,8 +393,11 @@ func (s *Server) handleBatch(session *SessionContext, req *Request) (resp *Respo
 }
 
 func (s *Server) handleWrapped(request *RequestContext, item *RequestBatchItem) (resp interface{}, err error) {
+	// finished tells apart normal return and panic(nil), for which recover() returns nil
+	finished := false
+
 	defer func() {
-		if p := recover(); p != nil {
+		if p := recover(); p != nil || !finished {
 			err = errors.Errorf("panic: %s", p)
 
 			buf := make([]byte, 8192)
@@ -408,10 +411,14 @@ func (s *Server) handleWrapped(request *RequestContext, item *RequestBatchItem) 
 
 	if handler == nil {
 		err = wrapError(errors.New("operation not supported"), RESULT_REASON_OPERATION_NOT_SUPPORTED)
+		finished = true
+
 		return
 	}
 
 	resp, err = handler(request, item)
+	finished = true
+
 	return
 }
 
